@@ -596,6 +596,19 @@ VARIANTS += [
 ]
 # ---- fourth round: rules derived from the mutation sweep and the fourth batch of seeded changes
 VARIANTS += [
+    Variant("twin-thl-combinator-factory", REC, [
+        ("    def dup_combinator(left, right):\n        return Candidate(\n            dup_cost + left.value + right.value,\n            MappingInfo(left.info, right.info),\n        )\n",
+         "    def make_combinator(event_cost):\n        return lambda left, right: Candidate(\n            event_cost + left.value + right.value,\n            MappingInfo(left.info, right.info),\n        )\n\n    dup_combinator = make_combinator(dup_cost)\n"),
+        ("    def hgt_combinator(left, right):\n        return Candidate(\n            hgt_cost + left.value + right.value,\n            MappingInfo(left.info, right.info),\n        )\n",
+         "    hgt_combinator = make_combinator(hgt_cost)\n"),
+    ], (), twin=True, note="combinators built by a local factory, wired correctly"),
+    Variant("thl-combinator-factory-miswired", REC, [
+        ("    def dup_combinator(left, right):\n        return Candidate(\n            dup_cost + left.value + right.value,\n            MappingInfo(left.info, right.info),\n        )\n",
+         "    def make_combinator(event_cost):\n        return lambda left, right: Candidate(\n            event_cost + left.value + right.value,\n            MappingInfo(left.info, right.info),\n        )\n\n    dup_combinator = make_combinator(dup_cost)\n"),
+        ("    def hgt_combinator(left, right):\n        return Candidate(\n            hgt_cost + left.value + right.value,\n            MappingInfo(left.info, right.info),\n        )\n",
+         "    hgt_combinator = make_combinator(dup_cost)\n"),
+    ], ("EVENT-SIG", "COSTKEYS")),
+    M("thl-dup-combinator-rejects-separated", REC, "    def dup_combinator(left, right):\n        return Candidate(", "    def dup_combinator(left, right):\n        if not species_lca.is_comparable(left.info, right.info):\n            return Candidate(inf)\n\n        return Candidate(", "COMBINATOR-TOTAL"),
     M("dset-find-path-halving-chained", DSET, "        if self.parent[element] == element:\n            return element\n\n        self.parent[element] = self.find(self.parent[element])\n        return self.parent[element]",
       "        while self.parent[element] != element:\n            element = self.parent[element] = self.parent[self.parent[element]]\n\n        return element", "CHAINED-ASSIGN-ORDER"),
     M("triples-one-per-cherry", TREES, "        triples.update(tree_triples)\n", "        for triple in tree_triples:\n            if not any(t[:2] == triple[:2] for t in triples):\n                triples.add(triple)\n", "TRIPLES-SOURCE"),
@@ -916,7 +929,7 @@ CANARY_RULES = (
     "KEY-GUARD", "HASH-IDENTITY", "COST-GUARD", "COPY-FAITHFUL", "NAME-AS-KEY", "ENUM-NO-TRUNCATION", "SET-ALGEBRA-ARGS",
     "LEAF-MAP-DOMAIN", "WIDTH-VERBATIM", "TOPO-VERDICT", "ROOT-ORDER-SOURCE",
     "CANDIDATE-GUARDS", "TREE-ITER-EXPLICIT", "STALE-INPUT", "HASH-CANONICAL", "NODE-OPAQUE", "UPDATE-ALL-CANDIDATES",
-    "COST-NO-ROUNDING", "MASK-RANGE", "GAIN-AT-LCA", "PRIVATE-INDEX", "ITERABLE-ONCE", "WRAP-AFTER-ESCAPE", "DRAW-COLOR-OWN", "PROXY-UPDATE-GATE", "CHAINED-ASSIGN-ORDER",
+    "COST-NO-ROUNDING", "MASK-RANGE", "GAIN-AT-LCA", "PRIVATE-INDEX", "ITERABLE-ONCE", "WRAP-AFTER-ESCAPE", "DRAW-COLOR-OWN", "PROXY-UPDATE-GATE", "CHAINED-ASSIGN-ORDER", "COMBINATOR-TOTAL",
 )
 
 MEMO_CANARY = Variant(
